@@ -69,6 +69,16 @@ CLAIMS = {
         "timer is pending and nothing is pending after stop(); Timer.cond_start/cond_stop/calc_output against their truth tables.",
    note="Trusted: asyncio call_later/TimerHandle contract (runs once, not before when, never after cancel): 'on time' and 'exactly "
         "once' are this contract plus the invariant; float durations as reals, +inf encoded as 10^300; A-C08."),
+ 'C05': dict(
+   text="Circuit.init_sblock, _init_sblocks_sync_1 and _init_sblocks_sync_2 (four loops with invariants) and the early-initialisation "
+        "branch of SBlock.event are executed from the real AST.  init_sblock: the routines of a block are called in the order saved "
+        "state (persistent blocks only, first step only), regular routine, initdef value (only if the output is still UNDEF, only "
+        "with init_from_value and a defined initdef), each at most once - an order automaton checked at every traced call; the "
+        "progress marker moves only along 0 -> -1 -> 1 -> -2 -> 2 for every block (a failed step is never retried), which is also the "
+        "guarantee the callers rely on.  sync_2 returns normally only if every sequential block of the circuit has a defined output "
+        "and the change queue is empty.  Writer/caller sets of init_steps_completed/init_sblock/_init_sblocks_async are scan obligations.",
+   note="Trusted: pyvc encoding, z3; initialisation routines are user/library code behind an interface contract (may set outputs, deliver "
+        "events, fail); set_output contract (C02).  Unclaimed: order-independence of success (confluence over whole start-ups)."),
  'C06': dict(
    text="AddonPersistence.event (proof instance for the MRO continuing with SBlock.event), save_persistent_state, "
         "init_from_persistent_data, Circuit._check_persistent_data (two loops with invariants), FSM.get_state, FSM._restore_state and "
